@@ -171,6 +171,7 @@ type RunResult struct {
 	Reached      map[string]int `json:"reached"`
 	Instrs       int64          `json:"instrs"`
 	Sample       *Finding       `json:"sample,omitempty"`
+	Samples      []Finding      `json:"samples,omitempty"`
 }
 
 // runHarness explores all paths of one harness function.
@@ -202,10 +203,29 @@ func (w *World) runHarness(pkg *ssa.Package, name string, solver *Solver, st *St
 		end := in.runPath(pkg, fn)
 		ex.PathsEnded[end]++
 		st.instrs += in.instrCount
-		if res.Sample == nil && end == "ok" && len(in.inputs) > 0 {
-			if m := ex.ensureModel(); m != nil {
-				res.Sample = &Finding{Harness: name, Kind: "sample-path", Values: in.renderInputs(m), PathCond: ex.pcString()}
-			}
+		if end == "ok" && len(in.inputs) > 0 && (res.Sample == nil || (ex.Paths&(ex.Paths-1)) == 0) && len(res.Samples) < 8 {
+			// sample paths (the 1st, 2nd, 4th, 8th ... explored): their models are replayed natively by the
+			// driver and must pass there too (conformance of the encoding on passing paths)
+			func() {
+				defer func() {
+					if r := recover(); r != nil {
+						if _, isEnd := r.(pathEnd); !isEnd {
+							panic(r)
+						}
+						// no realisable model within the refinement budget: this path is simply not sampled
+						if n := len(ex.Inconclusive); n > 0 && strings.HasPrefix(ex.Inconclusive[n-1], "counterexample rests on stub results") {
+							ex.Inconclusive = ex.Inconclusive[:n-1]
+						}
+					}
+				}()
+				if m, feasible := in.realisableModel(); feasible && m != nil {
+					f := Finding{Harness: name, Kind: "sample-path", Values: in.renderInputs(m), PathCond: ex.pcString(), Threads: in.th != nil}
+					if res.Sample == nil {
+						res.Sample = &f
+					}
+					res.Samples = append(res.Samples, f)
+				}
+			}()
 		}
 	}
 	res.Paths = ex.Paths
